@@ -23,7 +23,7 @@ RULE = ("one run = one document of a class (pure gfa1 / pure gfa2 / neutral / mi
         "order, flush positions) digests")
 PROBES = ["pure", "neutral", "mixed_content", "mixed_vn", "mixed_param", "mixed_rgfa", "flush_midway",
           "flush_repeated", "queue_nonempty_at_decision", "failing_record_in_queue", "deciding_last",
-          "header_contradiction_offered", "entry_clones", "entry_header_api"]
+          "header_contradiction_offered", "entry_clones", "entry_header_api", "header_declaration_refused_first"]
 
 OTHER1 = ["S\tzz9\t5\t*", "E\t*\tzz1+\tzz2-\t0\t1\t0\t1\t*", "G\t*\tzz1+\tzz2-\t5\t*", "U\tzz8\tzz1",
           "O\tzz7\tzz1+", "F\tzz1\tr+\t0\t1\t0\t1\t*", "X\tfoo"]
@@ -231,7 +231,43 @@ def run(scn, st):
                     g_.add_line(lines[i_])
                 g_.process_line_queue()
                 return g_
-            o = core.call(deliver_after_header)
+            def deliver_declared_late():
+                # GFA1 records which do not decide the version wait in the queue; a declaration of the other version
+                # through the header is refused then (nothing changes), the right one is made afterwards
+                g_ = gfapy.Gfa(vlevel=cfg["vlevel"], dialect=cfg["dialect"])
+                rest, queued = [], 0
+                for i_ in perm:
+                    if g_.version is None and lines[i_].split("\t")[0] in ("L", "C", "P", "#"):
+                        g_.add_line(lines[i_])
+                        queued += lines[i_][0] != "#"
+                    else:
+                        rest.append(i_)
+                if g_.version is not None or not queued:
+                    return None
+                h_ = g_.header
+                try:
+                    (setattr(h_, "VN", "2.0") if how == "attr" else (h_.set("VN", "2.0") if how == "set" else h_.add("VN", "2.0")))
+                    return None
+                except gfapy.Error:
+                    st.count("probe.header_declaration_refused_first")
+                (setattr(h_, "VN", vn) if how == "attr" else (h_.set("VN", vn) if how == "set" else h_.add("VN", vn)))
+                late_seen.append((g_.version, len(g_._line_queue)))
+                for i_ in rest:
+                    g_.add_line(lines[i_])
+                g_.process_line_queue()
+                return g_
+            o = None
+            late_seen = []
+            if declared == expect == "gfa1" and len(perm) % 2:
+                o = core.call(deliver_declared_late)
+                if o.ok and o.value is None:
+                    o = None
+                if late_seen and late_seen[0] != ("gfa1", 0):
+                    raise core.Violation("wrong-version", "queued GFA1 records, header.VN = '2.0' refused, then header.VN = "
+                                         "'1.0' (%s): version %r, %d line(s) still queued" %
+                                         (how, late_seen[0][0], late_seen[0][1]), entry="header_api", klass="declared-late")
+            if o is None:
+                o = core.call(deliver_after_header)
             if declared != expect:
                 st.count("oracle.version")
                 has_specific = any(ln.split("\t")[0] in ("S", "L", "C", "P", "E", "G", "F", "O", "U") for ln in lines)
